@@ -549,6 +549,21 @@ func (w *rworld) exec(o *opj) (int, bool, bool) {
 		// repaired router the stopping peer closes the connection at once: both orders happen)
 		o.Seen = w.identitiesAtS() > idBefore
 		return 0, false, !ok
+	case "stopold":
+		// Stop is called once more on an incarnation of p that has been stopped already
+		pe := w.peers[o.P]
+		n := len(pe.routers)
+		if pe.up {
+			n--
+		}
+		if n == 0 {
+			return 0, true, false
+		}
+		old := pe.routers[n-1]
+		if !boundedDo(10*time.Second, func() { old.Stop() }) {
+			return 0, false, true
+		}
+		return 0, false, !w.settle()
 	case "restart":
 		pe := w.peers[o.P]
 		if pe.up {
